@@ -18,6 +18,7 @@ def run(ctx, args):
         cases = [e["c"] for e in obj["replay"]["trace"]]
         layouts = [e.get("layout", "any") for e in obj["replay"]["trace"]][:1]
         ctx.seed = obj.get("seed", ctx.seed)
+        ctx.tlc_mc(d, "MC_AggSig.tla", "MC_AggSig_quick.cfg", workers=4, timeout=900)
     else:
         pool = ThreadPoolExecutor(max_workers=4)
         futs = [pool.submit(ctx.tlc_mc, d, "MC_AggSig.tla", "MC_AggSig_%s.cfg" % tier, 4, (), 900, False, None, False)]
